@@ -361,6 +361,12 @@ def check(cx):
         it, st = a.it, a.state
         r = a.ret
         K = ('seq', 'knots')
+        # the property holds for two or more knots: nothing from two knots on may be rejected
+        rej = length_rejections(it, K)
+        rep.ob('domain', inst, all(c is not None and c <= 2 for c in rej),
+               'rejects only fewer than %s knots' % (sorted(set(rej)) or ['-']), fn=inst, file=file, line=line,
+               msg='linear panics for inputs the property covers (two or more knots): it rejects len < %s' % sorted(set(x for x in rej if x is not None)) if all(x is not None for x in rej) else
+                   'linear has an explicit panic that is not a plain minimum-length check')
         seq = r.fields[0].seq if isinstance(r, Struct) and r.path == 'piecewise::Piecewise' and isinstance(r.fields[0], VecV) else None
         if isinstance(r, SelV):
             # a split on the number of knots that the entry assertion (at least two) already decides
